@@ -1097,3 +1097,108 @@ Proof.
       destruct (Z.ltb_spec 0 (Z.of_N e)); [|lia]. cbn [bind]. eexists; split; [reflexivity|].
       unfold blankb. destruct (list_eq_dec N.eq_dec (10%N :: e :: t') [10%N]) as [E|E]; [discriminate|reflexivity].
 Qed.
+
+Definition pb_loop1 : stmt := match fn_body cf_lbuf_paragraphbeg with SSeq w _ => w | _ => SSkip end.
+Definition pb_loop2 : stmt := match fn_body cf_lbuf_paragraphbeg with SSeq _ (SSeq w _) => w | _ => SSkip end.
+(* the number of rows a scan in direction dir can still visit from row r *)
+Definition meas (lines : list bytes) (dir r : Z) : nat :=
+  if (r <? 0) || (Z.of_nat (length lines) <=? r) then O
+  else if dir =? 1 then Z.to_nat (Z.of_nat (length lines) - r) else Z.to_nat (r + 1).
+
+Lemma pb_loop1_ok F d lb bln lbs lines br dir v3 : lines_small lines ->
+  ~ In br (lb :: bln :: lbs) -> br <> G_lit_0a_1 -> dir_ok dir ->
+  forall n m r mf fuel, lbuf_at m lb bln lbs lines -> str_at m G_lit_0a_1 [10%N] -> (br < length m)%nat -> cell_at m br r -> i32 r ->
+  (meas lines dir r <= n)%nat -> (n < mf)%nat -> (n < fuel)%nat ->
+  exec (callf cprog F (S d)) fuel pb_loop1 (mkst [VPtr lb 0; VInt dir; VPtr br 0; v3] m)
+  = ONormal (mkst [VPtr lb 0; VInt dir; VPtr br 0; v3] (upd m br [VInt (para_skip mf (map chop lines) dir true r)])) /\
+  i32 (para_skip mf (map chop lines) dir true r).
+Proof.
+  intros Hsm Nr Nlit Hd. set (b := map chop lines). pose proof (proj1 Hsm) as Hsm1.
+  induction n as [|n IH]; intros m r mf fuel Rm Hl Lr Hr Ir Hmeas Hmf Hf;
+    (destruct fuel as [|fuel]; [lia|]); (destruct mf as [|mf]; [lia|]);
+    unfold pb_loop1; cbn [fn_body cf_lbuf_paragraphbeg]; rewrite exec_while; xstep;
+    rewrite (load_cell m br r Hr); xstep; rewrite wrap_I32_id by exact Ir;
+    cbn [para_skip]; fold b; unfold b; rewrite (is_blank_line_rowidx lines r (la_nonul _ _ _ _ _ Rm)); unfold rowidx;
+    (destruct (Z.leb_spec 0 r) as [L0|L0]; xstep; cbn [andb option_map];
+     [|split; [rewrite (upd_self m br _ Hr); reflexivity|exact Ir]]);
+    rewrite (load_cell m br r Hr); xstep; rewrite wrap_I32_id by exact Ir;
+    rewrite (tr_lbuf_len m lb bln lbs lines d F Rm Hsm); xstep; unfold blen; rewrite map_length;
+    (destruct (Z.ltb_spec r (Z.of_nat (length lines))) as [L1|L1]; xstep; cbn [andb option_map];
+     [|split; [rewrite (upd_self m br _ Hr); reflexivity|exact Ir]]).
+  - exfalso. unfold meas in Hmeas. destruct (Z.ltb_spec r 0); [lia|]. destruct (Z.leb_spec (Z.of_nat (length lines)) r); [lia|]. cbn [orb] in Hmeas.
+    destruct Hd as [-> | ->]; cbn in Hmeas; lia.
+  - rewrite (load_cell m br r Hr). xstep. rewrite wrap_I32_id by exact Ir.
+    rewrite (tr_lbuf_get m lb bln lbs lines r d F Rm Hsm). unfold line_ptr, rowidx.
+    destruct (Z.leb_spec 0 r); [|lia]. destruct (Z.ltb_spec r (Z.of_nat (length lines))); [|lia]. cbn [andb]. xstep.
+    assert (Hi : (Z.to_nat r < length lines)%nat) by lia.
+    destruct (strcmp_nl m G_lit_0a_1 (nth (Z.to_nat r) lbs O) (nthl lines (Z.to_nat r)) Hl (la_str _ _ _ _ _ Rm _ Hi)
+                (nthl_nonul lines _ (la_nonul _ _ _ _ _ Rm))) as (x & Hx & Hxb).
+    rewrite Hx. xstep. rewrite Hxb.
+    destruct (blankb (nthl lines (Z.to_nat r))); cbn [negb b2z Bool.eqb]; xstep; [|split; [rewrite (upd_self m br _ Hr); reflexivity|exact Ir]].
+    rewrite (load_cell m br r Hr). xstep. rewrite wrap_I32_id by exact Ir.
+    rewrite chk_I32 by (destruct Hd as [-> | ->]; lia). xstep.
+    rewrite wrap_I32_id by (destruct Hd as [-> | ->]; lia). rewrite (store_cell m br r _ Hr). xstep.
+    set (m1 := upd m br [VInt (r + dir)]).
+    assert (Hm1 : (meas lines dir (r + dir) <= n)%nat).
+    { unfold meas in *. destruct (Z.ltb_spec r 0); [lia|]. destruct (Z.leb_spec (Z.of_nat (length lines)) r); [lia|]. cbn [orb] in Hmeas.
+      destruct ((r + dir <? 0) || (Z.of_nat (length lines) <=? r + dir)) eqn:Eo; [lia|].
+      apply orb_false_iff in Eo. destruct Eo as [Eo1 Eo2]. apply Z.ltb_ge in Eo1. apply Z.leb_gt in Eo2.
+      destruct Hd as [-> | ->]; cbn [Z.eqb Pos.eqb] in *; lia. }
+    destruct (IH m1 (r + dir) mf fuel) as [E1 E2]; try lia.
+    { apply lbuf_at_upd; assumption. }
+    { unfold str_at. unfold m1. rewrite mem_upd_other; [exact Hl|exact Lr|congruence]. }
+    { unfold m1. rewrite upd_length by exact Lr. exact Lr. }
+    { apply cell_at_upd_same. exact Lr. }
+    { unfold i32. destruct Hd as [-> | ->]; lia. }
+    unfold pb_loop1 in E1; cbn [fn_body cf_lbuf_paragraphbeg] in E1. rewrite E1.
+    split; [|exact E2]. unfold m1. rewrite upd_upd by exact Lr. reflexivity.
+Qed.
+
+Lemma pb_loop2_ok F d lb bln lbs lines br dir v3 : lines_small lines ->
+  ~ In br (lb :: bln :: lbs) -> br <> G_lit_0a_1 -> dir_ok dir ->
+  forall n m r mf fuel, lbuf_at m lb bln lbs lines -> str_at m G_lit_0a_1 [10%N] -> (br < length m)%nat -> cell_at m br r -> i32 r ->
+  (meas lines dir r <= n)%nat -> (n < mf)%nat -> (n < fuel)%nat ->
+  exec (callf cprog F (S d)) fuel pb_loop2 (mkst [VPtr lb 0; VInt dir; VPtr br 0; v3] m)
+  = ONormal (mkst [VPtr lb 0; VInt dir; VPtr br 0; v3] (upd m br [VInt (para_skip mf (map chop lines) dir false r)])) /\
+  i32 (para_skip mf (map chop lines) dir false r).
+Proof.
+  intros Hsm Nr Nlit Hd. set (b := map chop lines). pose proof (proj1 Hsm) as Hsm1.
+  induction n as [|n IH]; intros m r mf fuel Rm Hl Lr Hr Ir Hmeas Hmf Hf;
+    (destruct fuel as [|fuel]; [lia|]); (destruct mf as [|mf]; [lia|]);
+    unfold pb_loop2; cbn [fn_body cf_lbuf_paragraphbeg]; rewrite exec_while; xstep;
+    rewrite (load_cell m br r Hr); xstep; rewrite wrap_I32_id by exact Ir;
+    cbn [para_skip]; fold b; unfold b; rewrite (is_blank_line_rowidx lines r (la_nonul _ _ _ _ _ Rm)); unfold rowidx;
+    (destruct (Z.leb_spec 0 r) as [L0|L0]; xstep; cbn [andb option_map];
+     [|split; [rewrite (upd_self m br _ Hr); reflexivity|exact Ir]]);
+    rewrite (load_cell m br r Hr); xstep; rewrite wrap_I32_id by exact Ir;
+    rewrite (tr_lbuf_len m lb bln lbs lines d F Rm Hsm); xstep; unfold blen; rewrite map_length;
+    (destruct (Z.ltb_spec r (Z.of_nat (length lines))) as [L1|L1]; xstep; cbn [andb option_map];
+     [|split; [rewrite (upd_self m br _ Hr); reflexivity|exact Ir]]).
+  - exfalso. unfold meas in Hmeas. destruct (Z.ltb_spec r 0); [lia|]. destruct (Z.leb_spec (Z.of_nat (length lines)) r); [lia|]. cbn [orb] in Hmeas.
+    destruct Hd as [-> | ->]; cbn in Hmeas; lia.
+  - rewrite (load_cell m br r Hr). xstep. rewrite wrap_I32_id by exact Ir.
+    rewrite (tr_lbuf_get m lb bln lbs lines r d F Rm Hsm). unfold line_ptr, rowidx.
+    destruct (Z.leb_spec 0 r); [|lia]. destruct (Z.ltb_spec r (Z.of_nat (length lines))); [|lia]. cbn [andb]. xstep.
+    assert (Hi : (Z.to_nat r < length lines)%nat) by lia.
+    destruct (strcmp_nl m G_lit_0a_1 (nth (Z.to_nat r) lbs O) (nthl lines (Z.to_nat r)) Hl (la_str _ _ _ _ _ Rm _ Hi)
+                (nthl_nonul lines _ (la_nonul _ _ _ _ _ Rm))) as (x & Hx & Hxb).
+    rewrite Hx. xstep. rewrite Hxb.
+    destruct (blankb (nthl lines (Z.to_nat r))); cbn [negb b2z Bool.eqb]; xstep; [split; [rewrite (upd_self m br _ Hr); reflexivity|exact Ir]|].
+    rewrite (load_cell m br r Hr). xstep. rewrite wrap_I32_id by exact Ir.
+    rewrite chk_I32 by (destruct Hd as [-> | ->]; lia). xstep.
+    rewrite wrap_I32_id by (destruct Hd as [-> | ->]; lia). rewrite (store_cell m br r _ Hr). xstep.
+    set (m1 := upd m br [VInt (r + dir)]).
+    assert (Hm1 : (meas lines dir (r + dir) <= n)%nat).
+    { unfold meas in *. destruct (Z.ltb_spec r 0); [lia|]. destruct (Z.leb_spec (Z.of_nat (length lines)) r); [lia|]. cbn [orb] in Hmeas.
+      destruct ((r + dir <? 0) || (Z.of_nat (length lines) <=? r + dir)) eqn:Eo; [lia|].
+      apply orb_false_iff in Eo. destruct Eo as [Eo1 Eo2]. apply Z.ltb_ge in Eo1. apply Z.leb_gt in Eo2.
+      destruct Hd as [-> | ->]; cbn [Z.eqb Pos.eqb] in *; lia. }
+    destruct (IH m1 (r + dir) mf fuel) as [E1 E2]; try lia.
+    { apply lbuf_at_upd; assumption. }
+    { unfold str_at. unfold m1. rewrite mem_upd_other; [exact Hl|exact Lr|congruence]. }
+    { unfold m1. rewrite upd_length by exact Lr. exact Lr. }
+    { apply cell_at_upd_same. exact Lr. }
+    { unfold i32. destruct Hd as [-> | ->]; lia. }
+    unfold pb_loop2 in E1; cbn [fn_body cf_lbuf_paragraphbeg] in E1. rewrite E1.
+    split; [|exact E2]. unfold m1. rewrite upd_upd by exact Lr. reflexivity.
+Qed.
